@@ -91,7 +91,10 @@ CLAIMS = {
     "C18": dict(
         text="Theorems (arena part): an arena built with capacity c serves any request list with sizes multiples of MIN_ALIGN, aligns ≤ "
              "MIN_ALIGN and total ≤ c from its first chunk alone; a request of exactly chunk_capacity() bytes is served by the fast path; "
-             "every chunk created by the slow path is non-empty and at least as large as the request." + CORR +
+             "every chunk created by the slow path is non-empty and at least as large as the request, and its usable size is at least "
+             "max(2·usable(current chunk), request, 448) / 2^k where k counts the candidates the allocator refused or the limit rejected "
+             "(chunk_growth_geometric): with no refusals each new chunk at least doubles." + CORR +
+             " Oracle on the real crate: with no limit and no refusal in the call, the new chunk is at least twice the previous one." +
              " Vec/String part (reserve then push without moving, amortised growth): see the vec family when composed.",
         note=BASE_NOTE),
     "C19": dict(
